@@ -96,6 +96,15 @@ pub struct Heap {}
 /// SI prefixes used for binary multiples: nothing may be derived from the prefix exponents
 pub struct Mem {}
 
+#[quantity]
+#[ref_unit(Flop, "flop", "reference unit WITHOUT an SI prefix ...")]
+#[unit(Op, "op", NONE, 1, "... and an alias of it that carries one")]
+#[unit(Grand, "G", 1000, "no prefix, declared before ...")]
+#[unit(Kiloflop, "kflop", KILO, 1000, "... the SI unit of the same scale")]
+#[unit(Megaflop, "Mflop", MEGA, 1000000)]
+/// scale ties between units with and without SI prefix: the order must not depend on the prefix
+pub struct Ops {}
+
 #[quantity(Ticks * Durs)]
 #[ref_unit(Tickdur, "t·kd", NONE)]
 #[unit(Millitickdur, "mt·kd", MILLI, 0.001)]
